@@ -2,6 +2,7 @@ import Sentinel.Proto
 import Sentinel.DriverC13
 import Sentinel.DriverC02
 import Sentinel.DriverWorld
+import Sentinel.DriverC10
 /-! Generic driver: reads a trace (`case <id>` headers, `<op> -> <obs>` lines) from stdin, checks
 every case with the property's `checkCase`, prints one line per case. -/
 namespace Sentinel
@@ -10,6 +11,7 @@ def checkerFor (prop : String) : Option (List (String × String) → Verdict) :=
   match prop with
   | "C02" => some DriverC02.checkCase
   | "C01" | "C03" | "C04" | "C05" | "C06" | "C07" | "C08" | "C09" => some DriverWorld.checkCase
+  | "C10" => some DriverC10.checkCase
   | "C13" => some DriverC13.checkCase
   | _ => none
 
